@@ -37,3 +37,16 @@ Proof. eexists. split; vm_compute; reflexivity. Qed.
 Print Assumptions C12_tokens_report_their_own_position.
 Print Assumptions C12_position_is_forward_scan.
 Print Assumptions C12_eof_one_column_past_the_end.
+
+(* State space: the objects this property's model stands for have exactly the fields the model accounts for (StateSpace.v;
+   gen/StateSpaceGen.v is regenerated from the Go sources on every run). A new field - a cache, a memo, a counter - is state
+   the model does not have, so the theorems above would no longer be about the object. *)
+From Coq Require Import String.
+Require Import StateSpaceGen StateSpace.
+Open Scope string_scope.
+Theorem C12_state_space :
+  fields_of "io.StringScanner" = fields ["content"; "position"; "line"; "column"] /\
+  fields_of "tokenizers.AbstractTokenizer" = fields ["Overrides"; "mp"; "skipUnknown"; "skipWhitespaces"; "skipComments"; "skipEof"; "mergeWhitespaces"; "unifyNumbers"; "decodeStrings"; "commentState"; "numberState"; "quoteState"; "symbolState"; "whitespaceState"; "wordState"; "Scanner"; "NextTokenValue"; "LastTokenType"] /\
+  fields_of "tokenizers.Token" = fields ["typ"; "value"; "line"; "column"].
+Proof. vm_compute. repeat split; reflexivity. Qed.
+Print Assumptions C12_state_space.
